@@ -30,6 +30,17 @@ type Tape struct {
 	keepRec bool
 	limit   int
 	Over    bool // set when more than limit draws were requested
+	capture []uint64
+	capOn   bool
+}
+
+// StartCapture begins collecting the drawn values (independent of label
+// recording); StopCapture returns them.  Used to re-execute a section of a
+// run verbatim, e.g. once per enumerated fault point.
+func (t *Tape) StartCapture() { t.capture = t.capture[:0]; t.capOn = true }
+func (t *Tape) StopCapture() []uint64 {
+	t.capOn = false
+	return append([]uint64(nil), t.capture...)
 }
 
 // New returns a generating tape for the given seed.
@@ -101,6 +112,9 @@ func (t *Tape) Draw64(label string, n uint64) uint64 {
 		v %= n
 	}
 	t.pos++
+	if t.capOn {
+		t.capture = append(t.capture, v)
+	}
 	if t.keepRec {
 		t.rec = append(t.rec, Rec{label, n, v})
 	}
